@@ -1,6 +1,7 @@
 /- C09 extension (Smb family): theorems model = specification. -/
 import RelicVerif.Lemmas.NtSmb
 import RelicVerif.Lemmas.NtSmbPrime
+import RelicVerif.Lemmas.NtSmbPrime2
 
 namespace Relic.Props.C09
 open Relic.Model
@@ -55,5 +56,41 @@ theorem prime_rabin_small (a : ℤ) (h : a < 2 ∨ (a ≠ 2 ∧ a % 2 = 0)) : Nt
   · by_cases h0 : a < 2
     · simp [h0]
     · simp [h0, h1, h2]
+
+/-- the table transcribed in Model/NtSmbPrimeTab.lean consists of numbers ≥ 2 and its first 48 entries are the bases table of the Rabin model -/
+theorem prime_table_facts : (∀ p ∈ NtSmbPrime.primesAll, 2 ≤ p) ∧ NtSmbPrime.primesTab = NtSmbPrime.primesAll.take 48 :=
+  ⟨Relic.Lemmas.NtSmbPrime.primesAll_ge_two, Relic.Lemmas.NtSmbPrime.primesTab_eq_take⟩
+
+/-- bn_is_prime_basic (trial division by the whole table, either word size) accepts every prime -/
+theorem prime_basic_complete (w n : ℕ) (hp : n.Prime) : NtSmbPrime.basic w (n : ℤ) = true :=
+  Relic.Lemmas.NtSmbPrime.basic_prime w n hp
+
+/-- a rejection by bn_is_prime_basic is always right: for n ≥ 2 it exhibits a proper divisor -/
+theorem prime_basic_reject_sound (w n : ℕ) (hn : 2 ≤ n) (h : NtSmbPrime.basic w (n : ℤ) = false) : ∃ p, 2 ≤ p ∧ p < n ∧ p ∣ n :=
+  Relic.Lemmas.NtSmbPrime.basic_reject w n hn h
+
+/-- bn_is_prime (trial division, then Miller–Rabin) accepts every prime -/
+theorem prime_isprime_complete (w n : ℕ) (hp : n.Prime) : NtSmbPrime.isPrime w (n : ℤ) = true :=
+  Relic.Lemmas.NtSmbPrime.isPrime_prime w n hp
+
+/-- bn_is_prime_solov accepts every prime n > 2 WHATEVER the bases are (any list of bases in (0, n), any length), provided the symbol
+    function J (bn_smb_jac in the code) returns the Jacobi symbol for the modulus n — Euler's criterion. -/
+theorem prime_solov_complete (n : ℕ) (hp : n.Prime) (hn : 2 < n) (J : ℤ → ℤ → ℤ) (hJ : ∀ t : ℕ, J t n = jacobiSym (t : ℤ) n)
+    (bases : List ℕ) (hb : ∀ t ∈ bases, 0 < t ∧ t < n) : NtSmbPrime.solov J n bases = true :=
+  Relic.Lemmas.NtSmbPrime.solov_prime hp hn J hJ bases hb
+
+/-- with the model of bn_smb_jac plugged in: unconditional for primes that fit one digit (for longer primes the hypothesis of
+    `prime_solov_complete` is the open statement `smb_jac_exact`) -/
+theorem prime_solov_complete_one_digit (w n : ℕ) (hw : 0 < w) (hp : n.Prime) (hn : 2 < n) (hlt : n < 2 ^ w)
+    (bases : List ℕ) (hb : ∀ t ∈ bases, 0 < t ∧ t < n) :
+    NtSmbPrime.solov (fun t m => (NtSmb.jac w t m).getD 0) n bases = true := by
+  apply prime_solov_complete n hp hn _ _ bases hb
+  intro t
+  have hodd : n % 2 = 1 := by
+    rcases hp.eq_two_or_odd with h | h
+    · omega
+    · exact h
+  have := smb_jac_exact_partial w (t : ℤ) (n : ℤ) hw (by exact_mod_cast hp.pos) (by exact_mod_cast hodd) (by exact_mod_cast hlt)
+  simp only [this, Option.getD_some, Int.toNat_natCast]
 
 end Relic.Props.C09
